@@ -12,7 +12,7 @@ TRUSTED = ["model EpyVerif/Model/NetGF.lean (DiscreteGF._coefficientsFromNetwork
 ASSUMPTIONS = ["ranges of the property: mean degree <= 20, exponent 2..3.5, cutoff 5..60, index + order <= 60; derivative values at 1 only for ER"]
 RULE = ("network clause: random graphs of 1..12 nodes incl. isolated nodes, a single hub (4% with degree 301..419), self-loops, regular graphs, in 40% of cases built on a graph object that had other edges (same node count, usually same edge count) and was read through a GF before: coefficients, G(1), G'(1) and "
         "coefficients of derivatives compared with the exact Lean model / the degree sequence. Analytic clause: gf_er and gf_plc at random parameters "
-        "of the stated ranges, plain, scaled and differentiated in both orders, against high-precision Taylor coefficients (numerical oracle). "
+        "of the stated ranges, plain, scaled and differentiated in both orders (orders 1..3, and for ER at mean degree 10..20 orders 11..40 with index + order < 60), against high-precision Taylor coefficients (numerical oracle). "
         "non-trivial = network with >= 2 distinct degrees, or an analytic case with order > 0 or scale != 1; distinct = spec")
 PARTIAL = ["'within numerical tolerance' (floating-point contour integration, mpmath.polylog) is compared numerically, not proved; the roots-of-unity "
            "filter behind it is used in the oracle's tolerance but not formalised"]
@@ -21,7 +21,7 @@ PARTIAL = ["'within numerical tolerance' (floating-point contour integration, mp
 def _jobs(ctx):
     q = ctx.quick()
     return (sc.corpus_job(ctx) + [(f'net{k}', ['net', 60 if q else 800]) for k in range(4 if q else 8)]
-            + [(f'ana{k}', ['analytic', 1 if q else 12]) for k in range(8 if q else 16)])
+            + [(f'ana{k}', ['analytic', 1 if q else 12]) for k in range(8 if q else 16)] + [('hi', ['analytic_hi', 6 if q else 40])])
 
 
 def _nt(e):
